@@ -224,8 +224,12 @@ def check(run):
     nv, npairs = classify(run, res, allcases, "uid", exe)
     if not ok and nv == 0:
         run.violation("proof:%s" % failed, "proof", "proof obligation no longer checks: %s\n%s" % (failed, log[-1500:]), {"theorem": failed, "coq_log": log[-3000:]})
-    # one-filter chains go through C07's chain model: where that model has no valid constants for this tree (Fault) only the specification judges
-    res["mismatch"] = [x for x in res["mismatch"] if not (x[1].startswith("full\t") and x[2].startswith("fault:"))]
+    # one-filter chains go through C07's chain model: where that model has no valid constants for this tree only the specification judges them
+    cp = os.path.join(run.scratch, "c14-chainok.txt")
+    open(cp, "w").write("chainok\n")
+    if run.run_model(AREA, cp, cp + ".out") != ["ok\t1"]:
+        run.notes.append("chain constants not recognised on this tree (C07's subject): one-filter chains judged by the specification only")
+        res["mismatch"] = [x for x in res["mismatch"] if not x[1].startswith("full\t")]
     if res["mismatch"] and nv == 0:
         i, c, m, im = res["mismatch"][0]
         run.violation("corr:uid", "correspondence", "model and implementation differ on %d of %d cases although the specification holds on the implementation's verdicts" % (len(res["mismatch"]), len(allcases)),
